@@ -17,9 +17,9 @@ def spec_events(tree, snk, trail, locked, out):
             kids = tree[2:]; t2, l2, s2 = trail, tree[1] == 'T', snk
         elif k == 'fork':
             kids = tree[1:]; t2, l2, s2 = trail, locked, snk
-        elif k == 'raw':
+        elif k in ('raw', 'rawf'):
             kids = tree[1:]; t2, l2, s2 = [], True, snk
-        elif k == 'unrec':
+        elif k in ('unrec', 'unrecf'):
             kids = tree[1:]; t2, l2, s2 = trail, locked, False
         for c in kids:
             spec_events(c, s2, t2, l2, out)
@@ -76,7 +76,7 @@ def hctx_reference(ops):
 class C15(ParseProp):
     id = 'C15'
     files = ['tephra/src/context.rs', 'tephra/src/result.rs', 'tephra-combinator/src/control.rs']
-    rule = ('seeded random operation trees over push/pushmut/locked/fork/raw/unrec/send/apply (depth <= tier bound, width <= 3), '
+    rule = ('seeded random operation trees over push/pushmut/locked/fork/raw/unrec (wrapped parser succeeding or failing)/send/apply (depth <= tier bound, width <= 3), '
             'with and without sink, every transform tagging the error it sees; plus all trees of a small exhaustive family; plus histories over the WHOLE Context API as a register machine (new/empty, clone, pushed, push, locked, without_error_sink, without_local_context, take/replace_error_sink, take/replace_local_context, send_error, apply_context) on four contexts with two sinks; '
             'non-trivial = tree with >= 2 pushes and a send/apply after a sibling raw/unrec/locked; distinct by tree')
     assumptions = ['transforms are tagging closures; a saved local context is restored only into the context it was taken from (anything else can tie a parent chain into a cycle)']
@@ -98,7 +98,7 @@ class C15(ParseProp):
             n += 1
             out.append(parsegen.hctx_case('c%d' % n, parsegen.random_hctx_ops(r, 6 + r.below(14), mutating=(i % 3 != 0))))
         # small exhaustive family: wrapper W around a send, followed by sibling sends at every level
-        wrappers = ['raw', 'unrec', ['locked', 'T'], ['locked', 'F'], 'fork', ['push', 9], ['pushmut', 9]]
+        wrappers = ['raw', 'unrec', 'rawf', 'unrecf', ['locked', 'T'], ['locked', 'F'], 'fork', ['push', 9], ['pushmut', 9]]
         for w1 in wrappers:
             for w2 in wrappers:
                 for snk in (0, 1):
